@@ -100,5 +100,34 @@ def register(reg):
                  fresh=["ObsTime"],
                  loops={"1": LoopSpec(inv=["year >= 1970", "sec == 86400 * dby(year)", "sec <= elapsed_seconds"])}))
 
+    two = dict(self="ObsTime", time="ObsTime")
+    reg.add(Spec(M + "__eq__", two, "bool", requires=["wf(self)", "wf(time)"],
+                 ensures=[("fieldwise", "result == samefields(self, time)"),
+                          ("same-instant", "result == (abstime(self) == abstime(time))")]))
+    reg.add(Spec(M + "__ne__", two, "bool", requires=["wf(self)", "wf(time)"],
+                 ensures=[("same-instant", "result == (abstime(self) != abstime(time))")]))
+    reg.add(Spec(M + "__lt__", two, "bool", requires=["wf(self)", "wf(time)"],
+                 ensures=[("numeric-order", "result == (abstime(self) < abstime(time))")]))
+    reg.add(Spec(M + "__gt__", two, "bool", requires=["wf(self)", "wf(time)"],
+                 ensures=[("numeric-order", "result == (abstime(self) > abstime(time))")]))
+    reg.add(Spec(M + "__le__", two, "bool", requires=["wf(self)", "wf(time)"],
+                 ensures=[("numeric-order", "result == (abstime(self) <= abstime(time))")]))
+    reg.add(Spec(M + "__ge__", two, "bool", requires=["wf(self)", "wf(time)"],
+                 ensures=[("numeric-order", "result == (abstime(self) >= abstime(time))")]))
+    for name, unit in (("addSec", 1), ("addMin", 60), ("addHour", 3600), ("addDay", 86400)):
+        reg.add(Spec(M + name, dict(self="ObsTime", nb="float"), "ObsTime",
+                     requires=["wf(self)", "not isnan(nb)", "abstime(self) + nb * %d >= 0" % unit],
+                     ensures=[("well-formed", "wf(result)"),
+                              ("moved-lower", "abstime(result) <= abstime(self) + nb * %d" % unit),
+                              ("moved-upper", "abstime(self) + nb * %d < abstime(result) + 0.001" % unit),
+                              ("source-unchanged", "abstime(self) == old(abstime(self))")],
+                     fresh=["ObsTime"]))
+    reg.add(Spec(M + "__sub__", two, "float", requires=["wf(self)", "wf(time)"],
+                 ensures=[("difference", "result == abstime(self) - abstime(time)")]))
 
-FUNCTIONS = [M + "isLeapYear", M + "toAbsTime", M + "readUnixTime"]
+
+FUNCTIONS = [M + n for n in ("isLeapYear", "toAbsTime", "readUnixTime", "__eq__", "__ne__", "__lt__", "__gt__",
+                             "__le__", "__ge__", "addSec", "addMin", "addHour", "addDay", "__sub__")]
+
+ASSUMPTIONS = ["years >= 1970 (the code's epoch loop starts there); no upper bound on the year",
+               "the millisecond field on IEEE doubles may be one below the real-arithmetic value (covered by the bounded sweep)"]
